@@ -1,0 +1,61 @@
+//go:build verif
+
+// Licensed to Elasticsearch B.V. under one or more contributor
+// license agreements. See the NOTICE file distributed with
+// this work for additional information regarding copyright
+// ownership. Elasticsearch B.V. licenses this file to you under
+// the Apache License, Version 2.0 (the "License"); you may
+// not use this file except in compliance with the License.
+// You may obtain a copy of the License at
+//
+//     http://www.apache.org/licenses/LICENSE-2.0
+//
+// Unless required by applicable law or agreed to in writing,
+// software distributed under the License is distributed on an
+// "AS IS" BASIS, WITHOUT WARRANTIES OR CONDITIONS OF ANY
+// KIND, either express or implied.  See the License for the
+// specific language governing permissions and limitations
+// under the License.
+
+package seccomp
+
+import "golang.org/x/net/bpf"
+
+// VerifAsmStep describes one step of Program.Assemble: "init" before the
+// first jump is resolved, "jump" after a jump and its bridges are in place.
+type VerifAsmStep struct {
+	Kind         string // "init" or "jump"
+	Index        int    // index of the resolved jump (before its bridges were inserted)
+	SkipTrue     int
+	SkipFalse    int
+	BridgeTrue   bool
+	BridgeFalse  bool
+	Instructions []bpf.Instruction // live slice, copy it to keep it
+	Jumps        [][3]int          // index, true label, false label
+	Labels       map[int][]int
+}
+
+// VerifAsmEvent, when set, receives every step of Program.Assemble.
+var VerifAsmEvent func(step VerifAsmStep)
+
+func verifAsmEvent(p *Program, kind string, jump JumpIf, skipTrue, skipFalse int, bridgeTrue, bridgeFalse bool) {
+	if VerifAsmEvent == nil {
+		return
+	}
+	step := VerifAsmStep{
+		Kind: kind, Index: int(jump.index), SkipTrue: skipTrue, SkipFalse: skipFalse,
+		BridgeTrue: bridgeTrue, BridgeFalse: bridgeFalse, Instructions: p.instructions,
+	}
+	if kind == "init" {
+		for _, j := range p.jumps {
+			step.Jumps = append(step.Jumps, [3]int{int(j.index), int(j.trueLabel), int(j.falseLabel)})
+		}
+		step.Labels = make(map[int][]int, len(p.labels))
+		for l, idx := range p.labels {
+			for _, i := range idx {
+				step.Labels[int(l)] = append(step.Labels[int(l)], int(i))
+			}
+		}
+	}
+	VerifAsmEvent(step)
+}
